@@ -8,6 +8,7 @@ EXPLANATION = (
 
 def check(ctx, prog):
     search.rule_resume(ctx, prog)
+    search.rule_sentinel(ctx, prog)  # scope: the answer of a variable heuristic is a decision domain
     search.rule_solve_one(ctx, prog, want=("R-SOLUTION", "R-HANDOVER"))
     branching.check_value_heuristics(ctx, prog)
     branching.check_choice_points(ctx, prog)
